@@ -25,7 +25,7 @@ extern "C" void sym_body()
     const tensor_size_t n     = cfgi("n", 3);
     symsource_t         src(kinds, n, static_cast<long>(kinds.size()) - 1, static_cast<int>(cfgi("miss", 0)), cfgi("cx", 0) ? "#" : "v");
     src.load();
-    dataset_t ds(src, 1);
+    dataset_t ds(src, setup_workers(cfgi("threads", 1), cfgi("sched", 0))); // threads>1: sequentialised multi-worker pool (see sre_support.cpp)
     add_identity_generators(ds);
     indices_t samples = all_samples(n);
     if (cfgi("sub", 0))
